@@ -1006,7 +1006,13 @@ func (sb *seqbag) ReverseComplementSequences(names ...string) (err error) {
 		return
 	}
 
+	done := make(map[string]bool, len(names))
 	for _, name := range names {
+		// A name given several times designates a single sequence: reverse complement it once
+		if done[name] {
+			continue
+		}
+		done[name] = true
 		s, found := sb.SequenceByName(name)
 		if found {
 			if err = Complement(s.SequenceChar()); err != nil {
